@@ -1,7 +1,7 @@
 """C03 - timelines are canonical (sorted, disjoint, non-adjacent), on built and on derived graphs."""
 import gen
-from props.base import PropBase, tup
-from props.graphcommon import state_case, known_nodes, has_probes, Truth
+from props.base import PropBase, bigio_case, with_bigio, tup
+from props.graphcommon import state_case, known_nodes, has_probes, Truth, alias_phase, alias_oracle, latest_ends, ALIAS_SRC
 from props.suboracles import o_canon
 
 
@@ -16,6 +16,7 @@ def tl_probes(r, ns, directed):
     return ps
 
 
+@with_bigio
 class C03(PropBase):
     id = 'C03'
     obs = {'inter', 'has', 'slice', 'todir', 'toundir', 'add'}
@@ -30,6 +31,8 @@ class C03(PropBase):
                 % (2 if tier == 'quick' else 3)]
 
     def exhaustive_cases(self, tier):
+        # runs of 150 000 instants at epoch-size instants (implementation side only, interval arithmetic at the boundaries)
+        yield bigio_case(('span-core', False, 150000, 1700000000000), ('span-core', True, 150000, 2 ** 31 - 9))
         for directed in (False, True):
             for i, h in enumerate(gen.exhaustive_E1(max_len=2 if tier == 'quick' else 3)):
                 if tier == 'quick' or i % 3 == 0:
@@ -66,12 +69,17 @@ class C03(PropBase):
         case['_nreg'] = reg
         # the derivations must leave the source's timelines canonical too (aliasing with the derived graphs)
         prog += tl_probes(0, ns, d)
+        # ... and a derived graph must not follow when its source is extended afterwards
+        ders = [((lambda a, b: (lambda s, r: ('slice', s, r, a, b)))(a, b), d) for (a, b) in case.get('win', [])[:1]]
+        ders += [(lambda s, r: ('toundir', s, r, False), False), (lambda s, r: ('toundir', s, r, True), False)] if d else [(lambda s, r: ('todir', s, r), True)]
+        prog += alias_phase(hist, d, ns, ts, ders, latest_ends(hist, d))
         return prog
 
     def oracle(self, case, prog, ri):
         T = Truth(prog, ri)
         fails = []
-        regs = sorted({op[1] for op in prog if op[0] == 'inter'})
+        regs = sorted({op[1] for op in prog if op[0] == 'inter' and op[1] < ALIAS_SRC})
+        fails += alias_oracle(prog, ri)
         for r in regs:
             fails += o_canon(r, prog, ri, T)
         for i, (op, r) in enumerate(zip(prog, ri)):
